@@ -205,6 +205,12 @@ func (p *provider) Stop(ctx context.Context) error {
 }
 
 func (p *provider) filter(obj any) bool {
+	// a deletion noticed only while re-listing (the watch was broken when it happened) is delivered
+	// as the last known state of the object wrapped into a tombstone
+	if tombstone, ok := obj.(cache.DeletedFinalStateUnknown); ok {
+		obj = tombstone.Obj
+	}
+
 	// should never be of a different type. ok if panics
 	rs := obj.(*v1alpha4.RuleSet) // nolint: forcetypeassert
 
@@ -296,6 +302,10 @@ func (p *provider) deleteRuleSet(obj any) {
 	}
 
 	p.l.Info().Msg("Rule set deletion received")
+
+	if tombstone, ok := obj.(cache.DeletedFinalStateUnknown); ok {
+		obj = tombstone.Obj
+	}
 
 	// should never be of a different type. ok if panics
 	rs := obj.(*v1alpha4.RuleSet) // nolint: forcetypeassert
